@@ -188,6 +188,7 @@ func (c *Component) SendIQ(ctx context.Context, iq *stanza.IQ) (chan stanza.IQ, 
 	if err := c.Send(iq); err != nil {
 		return nil, err
 	}
+	verifPoint("sendiq.sent", iq.Attrs.Id)
 	return c.router.NewIQResultRoute(ctx, iq.Attrs.Id), nil
 }
 
